@@ -23,12 +23,14 @@ package trustedproxy
 // a single address is trusted for exactly that address
 //@ func (simpleIP).Contains
 //@   props C09
+//@   modifies nothing
 //@   ensures ret0 == ipEqual(s, ip)
 
 // trusted <=> some listed entry contains the peer address
 //@ func (trustedProxySet).Contains
 //@   props C09
 //@   logged tpc
+//@   modifies nothing
 //@   ensures !ret0 ==> forall i int :: 0 <= i && i < len(tpm) ==> !holderContains(old(tpm[i]), ip)
 //@   ensures ret0 ==> 0 <= hc.n - old(hc.n) - 1 && hc.n - old(hc.n) - 1 < len(tpm) && holderContains(before(tpm[hc.n - old(hc.n) - 1]), ip)
 //@   loop 0 invariant idx + 1 <= len(tpm) && hc.n == old(hc.n) + idx + 1 && forall i int :: 0 <= i && i <= idx ==> !holderContains(old(tpm[i]), ip)
@@ -46,7 +48,7 @@ package trustedproxy
 //@   ensures tpc.n == old(tpc.n) + 1 && serve.n == old(serve.n) + 1 && serve.arg2[old(serve.n)] == req
 //@   ensures tpc.ret0[old(tpc.n)] ==> hdel.n == old(hdel.n) && hset.n == old(hset.n) && hadd.n == old(hadd.n)
 //@   ensures !tpc.ret0[old(tpc.n)] ==> hdel.n == old(hdel.n) + len(untrustedHeader)
-//@   ensures !tpc.ret0[old(tpc.n)] ==> forall k int :: old(hdel.n) <= k && k < hdel.n ==> hdel.arg0[k] == old(req.Header) && hdel.arg1[k] == untrustedHeader[k - old(hdel.n)]
+//@   ensures !tpc.ret0[old(tpc.n)] ==> forall k int :: old(hdel.n) <= k && k < hdel.n ==> hdel.arg0[k] == old(req.Header) && hdel.arg1[k] == before(untrustedHeader[k - old(hdel.n)])
 //@   assert at call Handler_.ServeHTTP#1: tpc.ret0[tpc.n-1] || hdel.n == old(hdel.n) + len(untrustedHeader)
 //@   loop 0 invariant idx + 1 <= len(untrustedHeader) && hdel.n == old(hdel.n) + idx + 1 && serve.n == old(serve.n) && tpc.n == old(tpc.n) + 1
-//@   loop 0 invariant forall k int :: old(hdel.n) <= k && k < hdel.n ==> hdel.arg0[k] == old(req.Header) && hdel.arg1[k] == untrustedHeader[k - old(hdel.n)]
+//@   loop 0 invariant forall k int :: old(hdel.n) <= k && k < hdel.n ==> hdel.arg0[k] == old(req.Header) && hdel.arg1[k] == before(untrustedHeader[k - old(hdel.n)])
